@@ -52,6 +52,7 @@ theorem entry_seqno (sq : Nat) (items : List Item) : ∀ e ∈ items.map (Item.e
 @[simp] theorem setThread_store (s : State) (t : Tid) (th : Thread) : (setThread s t th).store = s.store := rfl
 @[simp] theorem setThread_batches (s : State) (t : Tid) (th : Thread) : (setThread s t th).batches = s.batches := rfl
 @[simp] theorem setThread_obs (s : State) (t : Tid) (th : Thread) : (setThread s t th).obs = s.obs := rfl
+@[simp] theorem setThread_wm (s : State) (t : Tid) (th : Thread) : (setThread s t th).wm = s.wm := rfl
 @[simp] theorem setThread_log (s : State) (t : Tid) (th : Thread) : (setThread s t th).log = s.log := rfl
 @[simp] theorem setThread_threads (s : State) (t : Tid) (th : Thread) : (setThread s t th).threads = s.threads.set t th := rfl
 
@@ -68,10 +69,12 @@ def floored (s : State) : Bool :=
   | some (_, .wDrawn _ _ _) => true
   | _ => false
 
-structure ThreadOk (counter : Nat) (infl : Option Nat) (th : Thread) : Prop where
+structure ThreadOk (counter : Nat) (infl : Option Nat) (wm : Nat) (th : Thread) : Prop where
   view : ∀ i, th.view = some i → i ≤ counter ∧ ∀ sq, infl = some sq → i ≤ sq
   loaded : ∀ v, th.phase = .sLoaded v → v ≤ counter
   drawn : ∀ sq, th.phase = .gDrawn sq → sq < counter
+  wmView : ∀ i, th.view = some i → wm ≤ i
+  wmLoaded : ∀ v, th.phase = .sLoaded v → wm ≤ v
 
 def Shape (s : State) : Prop :=
   match s.lock with
@@ -85,7 +88,9 @@ structure Inv (s : State) : Prop where
   batSorted : s.batches.Pairwise (fun a b => a.1 < b.1)
   floorNone : s.floor = none → floored s = false
   floorSome : ∀ F, s.floor = some F → F ≤ s.counter ∧ ∀ sq, inflight s = some sq → F ≤ sq
-  thrOk : ∀ (t : Tid) (th : Thread), s.threads[t]? = some th → ThreadOk s.counter (inflight s) th
+  thrOk : ∀ (t : Tid) (th : Thread), s.threads[t]? = some th → ThreadOk s.counter (inflight s) s.wm th
+  wmVis : s.wm ≤ s.visible
+  wmFloor : ∀ F, s.floor = some F → s.wm ≤ F
   shape : Shape s
   obsOk : ∀ o ∈ s.obs, o.view ≤ s.counter ∧ o.res = lookup (specStore s.batches) o.ks o.key (some o.view)
 
@@ -101,14 +106,14 @@ theorem get_set_cases {α : Type} (l : List α) (t j : Nat) (a b : α) (h : (l.s
   · simp only [hj, if_false] at h
     right; exact ⟨fun e => hj e.symm, h⟩
 
-theorem threadOk_mono (c c' : Nat) (infl : Option Nat) (th : Thread) (hc : c ≤ c') (h : ThreadOk c infl th) :
-    ThreadOk c' infl th :=
+theorem threadOk_mono (c c' : Nat) (infl : Option Nat) (wm : Nat) (th : Thread) (hc : c ≤ c') (h : ThreadOk c infl wm th) :
+    ThreadOk c' infl wm th :=
   ⟨fun i hi => ⟨Nat.le_trans (h.view i hi).1 hc, (h.view i hi).2⟩,
-   fun v hv => Nat.le_trans (h.loaded v hv) hc, fun sq hs => Nat.lt_of_lt_of_le (h.drawn sq hs) hc⟩
+   fun v hv => Nat.le_trans (h.loaded v hv) hc, fun sq hs => Nat.lt_of_lt_of_le (h.drawn sq hs) hc, h.wmView, h.wmLoaded⟩
 
-theorem threadOk_noInfl (c : Nat) (infl : Option Nat) (th : Thread) (h : ThreadOk c infl th) :
-    ThreadOk c none th :=
-  ⟨fun i hi => ⟨(h.view i hi).1, by simp⟩, h.loaded, h.drawn⟩
+theorem threadOk_noInfl (c : Nat) (infl : Option Nat) (wm : Nat) (th : Thread) (h : ThreadOk c infl wm th) :
+    ThreadOk c none wm th :=
+  ⟨fun i hi => ⟨(h.view i hi).1, by simp⟩, h.loaded, h.drawn, h.wmView, h.wmLoaded⟩
 
 theorem floored_false_inflight (s : State) (h : floored s = false) : inflight s = none := by
   unfold floored at h; unfold inflight
@@ -118,7 +123,17 @@ theorem natMax_le (a b c : Nat) (ha : a ≤ c) (hb : b ≤ c) : natMax a b ≤ c
   unfold natMax; split <;> assumption
 
 theorem inv_init (progs : List (List Cmd)) : Inv (init progs) := by
-  refine ⟨Nat.le_refl _, by simp [init], by simp [init], by intro _; rfl, by simp [init], ?_, by simp [Shape, init, specStore], by simp [init]⟩
+  refine {
+    visLe := Nat.le_refl _
+    batLt := by simp [init]
+    batSorted := by simp [init]
+    floorNone := by intro _; rfl
+    floorSome := by simp [init]
+    thrOk := ?_
+    shape := by simp [Shape, init, specStore]
+    obsOk := by simp [init]
+    wmVis := Nat.le_refl _
+    wmFloor := by simp [init] }
   intro t th h
   simp only [init, List.getElem?_map] at h
   cases hp : progs[t]? with
@@ -126,145 +141,293 @@ theorem inv_init (progs : List (List Cmd)) : Inv (init progs) := by
   | some p =>
     simp only [hp, Option.map_some, Option.some.injEq] at h
     subst h
-    exact ⟨by simp, by simp, by simp⟩
+    exact ⟨by simp, by simp, by simp, by simp, by simp⟩
 
-/-! ### steps of the holder of the journal mutex -/
-
-theorem inv_locked (s : State) (t : Tid) (th : Thread) (ph : LPhase) (hth : s.threads[t]? = some th)
-    (hl : s.lock = some (t, ph)) (h : Inv s) : Inv (lockedStep s t th ph) := by
-  have hsh := h.shape
-  cases ph with
-  | wLocked items =>
-    simp only [lockedStep]
-    have hinf : inflight s = none := by simp [inflight, hl]
-    refine ⟨h.visLe, h.batLt, h.batSorted, by simp, ?_, ?_, ?_, h.obsOk⟩
-    · intro F hF
-      simp only [Option.some.injEq] at hF
-      subst hF
-      exact ⟨h.visLe, by simp [inflight]⟩
-    · intro t' th' ht'
-      have := h.thrOk t' th' ht'
-      rw [hinf] at this
-      simpa [inflight] using this
-    · simp only [Shape, hl] at hsh ⊢; exact hsh
-  | wFloored items =>
-    simp only [lockedStep]
-    have hinf : inflight s = none := by simp [inflight, hl]
-    have hfl : s.floor ≠ none := by
-      intro hn
-      have := h.floorNone hn
-      simp [floored, hl] at this
-    refine ⟨Nat.le_succ_of_le h.visLe, ?_, ?_, by intro hn; exact absurd hn hfl, ?_, ?_, ?_, ?_⟩
-    · intro b hb
-      simp only [List.mem_append, List.mem_singleton] at hb
-      rcases hb with hb | rfl
-      · exact Nat.lt_succ_of_lt (h.batLt b hb)
-      · exact Nat.lt_succ_self _
-    · rw [List.pairwise_append]
-      refine ⟨h.batSorted, List.pairwise_singleton _ _, ?_⟩
-      intro a ha b hb
-      simp only [List.mem_singleton] at hb
-      subst hb
-      exact h.batLt a ha
-    · intro F hF
-      have := (h.floorSome F hF).1
-      refine ⟨Nat.le_succ_of_le this, ?_⟩
-      intro sq hsq
-      simp only [inflight, Option.some.injEq] at hsq
-      omega
-    · intro t' th' ht'
-      have ok := h.thrOk t' th' ht'
-      refine ⟨fun i hi => ⟨Nat.le_succ_of_le (ok.view i hi).1, ?_⟩, fun v hv => Nat.le_succ_of_le (ok.loaded v hv),
-        fun sq hs => Nat.lt_succ_of_lt (ok.drawn sq hs)⟩
-      intro sq hsq
-      simp only [inflight, Option.some.injEq] at hsq
-      have := (ok.view i hi).1
-      omega
-    · simp only [Shape, hl] at hsh ⊢
-      exact ⟨s.batches, by simp, by simp [hsh]⟩
-    · intro o ho
-      obtain ⟨h1, h2⟩ := h.obsOk o ho
-      refine ⟨Nat.le_succ_of_le h1, ?_⟩
-      rw [specStore_append, specStore_single, lookup_append_invisible _ _ _ _ _ (by
-        intro e he; rw [entry_seqno _ _ e he]; exact h1)]
-      exact h2
-  | wDrawn sq done rest =>
-    cases rest with
-    | cons it rest =>
-      simp only [lockedStep]
-      have hinf : inflight s = some sq := by simp [inflight, hl]
-      refine ⟨h.visLe, h.batLt, h.batSorted, ?_, ?_, ?_, ?_, h.obsOk⟩
-      · intro hn; have := h.floorNone hn; simp [floored, hl] at this
-      · intro F hF
-        refine ⟨(h.floorSome F hF).1, ?_⟩
-        intro sq' hsq'
-        simp only [inflight, Option.some.injEq] at hsq'
-        subst hsq'
-        exact (h.floorSome F hF).2 sq hinf
-      · intro t' th' ht'
-        have := h.thrOk t' th' ht'
-        rw [hinf] at this
-        simpa [inflight] using this
-      · simp only [Shape, hl] at hsh ⊢
-        obtain ⟨bs, hb, hs⟩ := hsh
-        exact ⟨bs, by simp [hb], by simp [hs]⟩
-    | nil =>
-      simp only [lockedStep]
-      simp only [Shape, hl] at hsh
-      obtain ⟨bs, hb, hs⟩ := hsh
-      have hsq : sq < s.counter := h.batLt (sq, done ++ []) (by rw [hb]; simp)
-      refine ⟨natMax_le _ _ _ h.visLe hsq, h.batLt, h.batSorted, by intro _; rfl, by simp, ?_, ?_, h.obsOk⟩
-      · intro t' th' ht'
-        have := threadOk_noInfl _ _ _ (h.thrOk t' th' ht')
-        simpa [inflight] using this
-      · simp only [Shape]
-        rw [hs, hb, specStore_append, specStore_single]
-        simp
-  | wPublished =>
-    simp only [lockedStep]
-    have hinf : inflight s = none := by simp [inflight, hl]
-    refine ⟨h.visLe, h.batLt, h.batSorted, by intro _; rfl, ?_, ?_, ?_, h.obsOk⟩
-    · intro F hF; exact ⟨(h.floorSome F hF).1, by simp [inflight]⟩
-    · intro t' th' ht'
-      simp only [setThread] at ht'
-      rcases get_set_cases _ _ _ _ _ ht' with ⟨_, rfl⟩ | ⟨_, ht''⟩
-      · have := h.thrOk t th hth
-        rw [hinf] at this
-        exact ⟨by simpa [inflight] using this.view, by simpa using this.loaded, by simpa using this.drawn⟩
-      · have := h.thrOk t' th' ht''
-        rw [hinf] at this
-        simpa [inflight] using this
-    · simp only [Shape, hl] at hsh ⊢; exact hsh
-  | rLocked =>
-    simp only [lockedStep]
-    have hinf : inflight s = none := by simp [inflight, hl]
-    refine ⟨h.visLe, h.batLt, h.batSorted, by intro _; rfl, ?_, ?_, ?_, h.obsOk⟩
-    · intro F hF; exact ⟨(h.floorSome F hF).1, by simp [inflight]⟩
-    · intro t' th' ht'
-      simp only [setThread] at ht'
-      rcases get_set_cases _ _ _ _ _ ht' with ⟨_, rfl⟩ | ⟨_, ht''⟩
-      · have := h.thrOk t th hth
-        rw [hinf] at this
-        exact ⟨by simpa [inflight] using this.view, by simpa using this.loaded, by simpa using this.drawn⟩
-      · have := h.thrOk t' th' ht''
-        rw [hinf] at this
-        simpa [inflight] using this
-    · simp only [Shape, hl] at hsh ⊢; exact hsh
-
-end Fjall.Conc
-
-namespace Fjall.Conc
-open Fjall Fjall.Spec
-
-/-! ### steps of threads outside the critical section -/
-
-theorem thrOk_set (s : State) (t : Tid) (th th' : Thread) (c : Nat) (infl : Option Nat)
-    (hall : ∀ (t' : Tid) (x : Thread), s.threads[t']? = some x → ThreadOk c infl x) (hnew : ThreadOk c infl th') :
-    ∀ (t' : Tid) (x : Thread), (s.threads.set t th')[t']? = some x → ThreadOk c infl x := by
+theorem thrOk_set (s : State) (t : Tid) (th' : Thread) (c : Nat) (infl : Option Nat) (wm : Nat)
+    (hall : ∀ (t' : Tid) (x : Thread), s.threads[t']? = some x → ThreadOk c infl wm x) (hnew : ThreadOk c infl wm th') :
+    ∀ (t' : Tid) (x : Thread), (s.threads.set t th')[t']? = some x → ThreadOk c infl wm x := by
   intro t' x hx
   rcases get_set_cases _ _ _ _ _ hx with ⟨_, rfl⟩ | ⟨_, hx'⟩
   · exact hnew
   · exact hall t' x hx'
+
+/-! ### the tracker GC -/
+
+theorem natMin_le_left (a b : Nat) : natMin a b ≤ a := by unfold natMin; split <;> omega
+theorem natMin_le_right (a b : Nat) : natMin a b ≤ b := by unfold natMin; split <;> omega
+
+theorem foldl_min_le (l : List Thread) (t0 : Nat) :
+    l.foldl viewMin t0 ≤ t0 ∧ ∀ th ∈ l, ∀ i, th.view = some i → l.foldl viewMin t0 ≤ i := by
+  induction l generalizing t0 with
+  | nil => exact ⟨Nat.le_refl _, by simp⟩
+  | cons a r ih =>
+    simp only [List.foldl_cons, viewMin]
+    cases hv : a.view with
+    | none =>
+      simp only
+      obtain ⟨h1, h2⟩ := ih t0
+      refine ⟨h1, ?_⟩
+      intro th hth i hi
+      simp only [List.mem_cons] at hth
+      rcases hth with rfl | hth
+      · rw [hv] at hi; cases hi
+      · exact h2 th hth i hi
+    | some j =>
+      simp only
+      obtain ⟨h1, h2⟩ := ih (natMin t0 j)
+      refine ⟨Nat.le_trans h1 (natMin_le_left _ _), ?_⟩
+      intro th hth i hi
+      simp only [List.mem_cons] at hth
+      rcases hth with rfl | hth
+      · rw [hv] at hi; cases hi; exact Nat.le_trans h1 (natMin_le_right _ _)
+      · exact h2 th hth i hi
+
+theorem instantOf_le (cfg : Cfg) (hcfg : cfg.useFloor = true) (s : State) (v : Nat) :
+    instantOf cfg s v ≤ v ∧ ∀ F, s.floor = some F → instantOf cfg s v ≤ F := by
+  simp only [instantOf, hcfg, if_true]
+  cases hf : s.floor with
+  | none => exact ⟨Nat.le_refl _, by simp⟩
+  | some F =>
+    simp only
+    split
+    · rename_i h; exact ⟨Nat.le_refl _, by intro F' hF'; cases hF'; exact h⟩
+    · rename_i h; exact ⟨by omega, by intro F' hF'; cases hF'; exact Nat.le_refl _⟩
+
+/-- what the GC may set the watermark to is below every live view, the visible seqno and the floor -/
+theorem gcWm_ok (cfg : Cfg) (hcfg : cfg.useFloor = true) (s : State) (h : Inv s) :
+    gcWm cfg s ≤ s.visible ∧ (∀ F, s.floor = some F → gcWm cfg s ≤ F) ∧
+    ∀ (t : Tid) (th : Thread) (i : Nat), s.threads[t]? = some th → th.view = some i → gcWm cfg s ≤ i := by
+  obtain ⟨i1, i2⟩ := instantOf_le cfg hcfg s s.visible
+  obtain ⟨f1, f2⟩ := foldl_min_le s.threads (instantOf cfg s s.visible)
+  simp only [gcWm]
+  refine ⟨natMax_le _ _ _ h.wmVis (by omega), ?_, ?_⟩
+  · intro F hF
+    exact natMax_le _ _ _ (h.wmFloor F hF) (by have := i2 F hF; omega)
+  · intro t th i hth hv
+    have hm : th ∈ s.threads := List.mem_of_getElem? hth
+    exact natMax_le _ _ _ ((h.thrOk t th hth).wmView i hv) (by have := f2 th hm i hv; omega)
+
+theorem not_loading (s : State) (h : loading s = false) (t : Tid) (th : Thread) (hth : s.threads[t]? = some th) :
+    ∀ v, th.phase ≠ .sLoaded v := by
+  intro v hv
+  have hm : th ∈ s.threads := List.mem_of_getElem? hth
+  simp only [loading, List.any_eq_false] at h
+  have := h th hm
+  rw [hv] at this
+  simp at this
+
+/-- all threads stay fine when the watermark moves to what the GC computes (nobody is loading) -/
+theorem thrOk_gc (cfg : Cfg) (hcfg : cfg.useFloor = true) (s : State) (h : Inv s) (hl : loading s = false) :
+    ∀ (t : Tid) (th : Thread), s.threads[t]? = some th → ThreadOk s.counter (inflight s) (gcWm cfg s) th := by
+  intro t th hth
+  have ok := h.thrOk t th hth
+  exact ⟨ok.view, ok.loaded, ok.drawn, fun i hi => (gcWm_ok cfg hcfg s h).2.2 t th i hth hi,
+    fun v hv => absurd hv (not_loading s hl t th hth v)⟩
+
+/-! ### steps of the holder of the journal mutex -/
+
+theorem inv_locked (cfg : Cfg) (hcfg : cfg.useFloor = true) (s s' : State) (t : Tid) (th : Thread) (ph : LPhase)
+    (hth : s.threads[t]? = some th) (hl : s.lock = some (t, ph)) (hstep : lockedStep cfg s t th ph = some s')
+    (h : Inv s) : Inv s' := by
+  have hsh := h.shape
+  cases ph with
+  | wLocked items =>
+    simp only [lockedStep, Option.some.injEq] at hstep; subst hstep
+    have hinf : inflight s = none := by simp [inflight, hl]
+    exact { h with
+      floorNone := by simp
+      floorSome := by
+        intro F hF
+        simp only [Option.some.injEq] at hF
+        subst hF
+        exact ⟨h.visLe, by simp [inflight]⟩
+      thrOk := by
+        intro t' th' ht'
+        have := h.thrOk t' th' ht'
+        rw [hinf] at this
+        simpa [inflight] using this
+      shape := by simp only [Shape, hl] at hsh ⊢; exact hsh
+      wmFloor := by intro F hF; simp only [Option.some.injEq] at hF; subst hF; exact h.wmVis }
+  | wFloored items =>
+    simp only [lockedStep, Option.some.injEq] at hstep; subst hstep
+    have hfl : s.floor ≠ none := by
+      intro hn
+      have := h.floorNone hn
+      simp [floored, hl] at this
+    exact {
+      visLe := Nat.le_succ_of_le h.visLe
+      batLt := by
+        intro b hb
+        simp only [List.mem_append, List.mem_singleton] at hb
+        rcases hb with hb | rfl
+        · exact Nat.lt_succ_of_lt (h.batLt b hb)
+        · exact Nat.lt_succ_self _
+      batSorted := by
+        simp only [List.pairwise_append]
+        refine ⟨h.batSorted, List.pairwise_singleton _ _, ?_⟩
+        intro a ha b hb
+        simp only [List.mem_singleton] at hb
+        subst hb
+        exact h.batLt a ha
+      floorNone := by intro hn; exact absurd hn hfl
+      floorSome := by
+        intro F hF
+        have := (h.floorSome F hF).1
+        refine ⟨Nat.le_succ_of_le this, ?_⟩
+        intro sq hsq
+        simp only [inflight, Option.some.injEq] at hsq
+        omega
+      thrOk := by
+        intro t' th' ht'
+        have ok := h.thrOk t' th' ht'
+        refine ⟨fun i hi => ⟨Nat.le_succ_of_le (ok.view i hi).1, ?_⟩, fun v hv => Nat.le_succ_of_le (ok.loaded v hv),
+          fun sq hs => Nat.lt_succ_of_lt (ok.drawn sq hs), ok.wmView, ok.wmLoaded⟩
+        intro sq hsq
+        simp only [inflight, Option.some.injEq] at hsq
+        have := (ok.view i hi).1
+        omega
+      shape := by
+        simp only [Shape, hl] at hsh ⊢
+        exact ⟨s.batches, by simp, by simp [hsh]⟩
+      obsOk := by
+        intro o ho
+        obtain ⟨h1, h2⟩ := h.obsOk o ho
+        refine ⟨Nat.le_succ_of_le h1, ?_⟩
+        rw [specStore_append, specStore_single, lookup_append_invisible _ _ _ _ _ (by
+          intro e he; rw [entry_seqno _ _ e he]; exact h1)]
+        exact h2
+      wmVis := h.wmVis
+      wmFloor := h.wmFloor }
+  | wDrawn sq done rest =>
+    cases rest with
+    | cons it rest =>
+      simp only [lockedStep, Option.some.injEq] at hstep; subst hstep
+      have hinf : inflight s = some sq := by simp [inflight, hl]
+      exact { h with
+        floorNone := by intro hn; have := h.floorNone hn; simp [floored, hl] at this
+        floorSome := by
+          intro F hF
+          refine ⟨(h.floorSome F hF).1, ?_⟩
+          intro sq' hsq'
+          simp only [inflight, Option.some.injEq] at hsq'
+          subst hsq'
+          exact (h.floorSome F hF).2 sq hinf
+        thrOk := by
+          intro t' th' ht'
+          have := h.thrOk t' th' ht'
+          rw [hinf] at this
+          simpa [inflight] using this
+        shape := by
+          simp only [Shape, hl] at hsh ⊢
+          obtain ⟨bs, hb, hs⟩ := hsh
+          exact ⟨bs, by simp [hb], by simp [hs]⟩ }
+    | nil =>
+      simp only [lockedStep, Option.some.injEq] at hstep; subst hstep
+      simp only [Shape, hl] at hsh
+      obtain ⟨bs, hb, hs⟩ := hsh
+      have hsq : sq < s.counter := h.batLt (sq, done ++ []) (by rw [hb]; simp)
+      exact { h with
+        visLe := natMax_le _ _ _ h.visLe hsq
+        floorNone := by intro _; rfl
+        floorSome := by simp
+        thrOk := by
+          intro t' th' ht'
+          have := threadOk_noInfl _ _ _ _ (h.thrOk t' th' ht')
+          simpa [inflight] using this
+        shape := by
+          simp only [Shape]
+          rw [hs, hb, specStore_append, specStore_single]
+          simp
+        wmVis := by
+          have := h.wmVis
+          simp only [natMax]; split <;> omega
+        wmFloor := by simp }
+  | wPublished =>
+    simp only [lockedStep, Option.some.injEq] at hstep; subst hstep
+    have hinf : inflight s = none := by simp [inflight, hl]
+    exact { h with
+      floorNone := by intro _; rfl
+      floorSome := by intro F hF; exact ⟨(h.floorSome F hF).1, by simp [inflight]⟩
+      thrOk := by
+        have hall : ∀ (t' : Tid) (x : Thread), s.threads[t']? = some x → ThreadOk s.counter none s.wm x := by
+          intro t' x hx; have := h.thrOk t' x hx; rw [hinf] at this; exact this
+        have ok := hall t th hth
+        exact thrOk_set s t _ s.counter none s.wm hall ⟨ok.view, ok.loaded, ok.drawn, ok.wmView, ok.wmLoaded⟩
+      shape := by simp only [Shape, hl] at hsh ⊢; exact hsh }
+  | rLocked =>
+    simp only [lockedStep, Option.some.injEq] at hstep; subst hstep
+    have hinf : inflight s = none := by simp [inflight, hl]
+    exact { h with
+      floorNone := by intro _; rfl
+      floorSome := by intro F hF; exact ⟨(h.floorSome F hF).1, by simp [inflight]⟩
+      thrOk := by
+        have hall : ∀ (t' : Tid) (x : Thread), s.threads[t']? = some x → ThreadOk s.counter none s.wm x := by
+          intro t' x hx; have := h.thrOk t' x hx; rw [hinf] at this; exact this
+        have ok := hall t th hth
+        exact thrOk_set s t _ s.counter none s.wm hall ⟨ok.view, by simp, by simp, ok.wmView, by simp⟩
+      shape := by simp only [Shape, hl] at hsh ⊢; exact hsh }
+  | iLocked items =>
+    simp only [lockedStep, Option.some.injEq] at hstep; subst hstep
+    have hinf : inflight s = none := by simp [inflight, hl]
+    simp only [Shape, hl] at hsh
+    exact {
+      visLe := natMax_le _ _ _ (Nat.le_succ_of_le h.visLe) (Nat.le_refl _)
+      batLt := by
+        intro b hb
+        simp only [List.mem_append, List.mem_singleton] at hb
+        rcases hb with hb | rfl
+        · exact Nat.lt_succ_of_lt (h.batLt b hb)
+        · exact Nat.lt_succ_self _
+      batSorted := by
+        simp only [List.pairwise_append]
+        refine ⟨h.batSorted, List.pairwise_singleton _ _, ?_⟩
+        intro a ha b hb
+        simp only [List.mem_singleton] at hb
+        subst hb
+        exact h.batLt a ha
+      floorNone := by intro _; rfl
+      floorSome := by intro F hF; exact ⟨Nat.le_succ_of_le (h.floorSome F hF).1, by simp [inflight]⟩
+      thrOk := by
+        intro t' th' ht'
+        have ok := h.thrOk t' th' ht'
+        exact ⟨fun i hi => ⟨Nat.le_succ_of_le (ok.view i hi).1, by simp [inflight]⟩,
+          fun v hv => Nat.le_succ_of_le (ok.loaded v hv), fun sq hs => Nat.lt_succ_of_lt (ok.drawn sq hs), ok.wmView, ok.wmLoaded⟩
+      shape := by
+        simp only [Shape]
+        rw [hsh, specStore_append, specStore_single]
+      obsOk := by
+        intro o ho
+        obtain ⟨h1, h2⟩ := h.obsOk o ho
+        refine ⟨Nat.le_succ_of_le h1, ?_⟩
+        rw [specStore_append, specStore_single, lookup_append_invisible _ _ _ _ _ (by
+          intro e he; rw [entry_seqno _ _ e he]; exact h1)]
+        exact h2
+      wmVis := by
+        have := h.wmVis
+        simp only [natMax]; split <;> omega
+      wmFloor := h.wmFloor }
+  | iGc =>
+    simp only [lockedStep] at hstep
+    split at hstep
+    · cases hstep
+    · rename_i hload
+      simp only [Option.some.injEq] at hstep; subst hstep
+      have hload' : loading s = false := by simpa using hload
+      have hinf : inflight s = none := by simp [inflight, hl]
+      obtain ⟨g1, g2, _⟩ := gcWm_ok cfg hcfg s h
+      exact { h with
+        floorNone := by intro hn; have := h.floorNone hn; simp [floored, hl] at this ⊢
+        floorSome := by intro F hF; exact ⟨(h.floorSome F hF).1, by simp [inflight]⟩
+        thrOk := by
+          intro t' th' ht'
+          have := thrOk_gc cfg hcfg s h hload' t' th' ht'
+          rw [hinf] at this
+          simpa [inflight] using this
+        shape := by simp only [Shape, hl] at hsh ⊢; exact hsh
+        wmVis := g1
+        wmFloor := g2 }
+
+/-! ### steps of threads outside the critical section -/
 
 /-- what a view sees of the store equals what it sees of the completed writes -/
 theorem read_correct (s : State) (h : Inv s) (ks : KsId) (key : Key) (i : Nat)
@@ -280,6 +443,29 @@ theorem read_correct (s : State) (h : Inv s) (ks : KsId) (key : Key) (i : Nat)
     rw [lookup_append_invisible _ _ _ _ _ (by intro e he; rw [entry_seqno _ _ e he]; exact hisq)]
     rw [lookup_append_invisible _ _ _ _ _ (by intro e he; rw [entry_seqno _ _ e he]; exact hisq)]
   · rw [hsh]
+
+theorem inv_acquire (s : State) (t : Tid) (ph : LPhase) (h : Inv s) (hl : s.lock = none)
+    (hph : ∀ sq d r, ph ≠ .wDrawn sq d r) (hfl : ∀ items, ph ≠ .wFloored items) (log' : List Ev) :
+    Inv { s with lock := some (t, ph), log := log' } := by
+  have hinf : inflight s = none := by simp [inflight, hl]
+  have hinf' : inflight { s with lock := some (t, ph), log := log' } = none := by
+    simp only [inflight]
+    cases ph <;> simp_all
+  exact { h with
+    floorNone := by
+      intro _
+      simp only [floored]
+      cases ph <;> simp_all
+    floorSome := by intro F hF; exact ⟨(h.floorSome F hF).1, by rw [hinf']; simp⟩
+    thrOk := by
+      intro t' th' ht'
+      have := h.thrOk t' th' ht'
+      rw [hinf] at this; rw [hinf']; exact this
+    shape := by
+      have := h.shape
+      simp only [Shape, hl] at this
+      simp only [Shape]
+      cases ph <;> simp_all }
 
 theorem inv_free (cfg : Cfg) (hcfg : cfg.useFloor = true) (s s' : State) (t : Tid) (th : Thread)
     (hth : s.threads[t]? = some th) (hstep : freeStep cfg s t th = some s') (h : Inv s) : Inv s' := by
@@ -303,82 +489,126 @@ theorem inv_free (cfg : Cfg) (hcfg : cfg.useFloor = true) (s s' : State) (t : Ti
         split
         · rename_i hvF; exact ⟨hv, fun sq hsq => Nat.le_trans hvF (h2 sq hsq)⟩
         · exact ⟨h1, h2⟩
-    refine ⟨h.visLe, h.batLt, h.batSorted, h.floorNone, h.floorSome, ?_, ?_, h.obsOk⟩
-    · apply thrOk_set s t th _ s.counter (inflight s) h.thrOk
-      exact ⟨by intro i hi; simp only [Option.some.injEq] at hi; subst hi; exact hinst, by simp, by simp⟩
-    · exact h.shape
+    have hwm : s.wm ≤ instantOf cfg s v := by
+      have hwv := ok.wmLoaded v hph
+      simp only [instantOf, hcfg, if_true]
+      cases hf : s.floor with
+      | none => exact hwv
+      | some F =>
+        simp only
+        split
+        · exact hwv
+        · exact h.wmFloor F hf
+    exact { h with
+      thrOk := thrOk_set s t _ s.counter (inflight s) s.wm h.thrOk
+        ⟨by intro i hi; simp only [Option.some.injEq] at hi; subst hi; exact hinst, by simp, by simp,
+         by intro i hi; simp only [Option.some.injEq] at hi; subst hi; exact hwm, by simp⟩
+      shape := h.shape }
   · -- gDrawn: visible advances past the registration's seqno
     rename_i sq hph
     simp only [Option.some.injEq] at hstep; subst hstep
     have hsq := ok.drawn sq hph
-    refine ⟨natMax_le _ _ _ h.visLe hsq, h.batLt, h.batSorted, h.floorNone, h.floorSome, ?_, h.shape, h.obsOk⟩
-    apply thrOk_set s t th _ s.counter (inflight s) h.thrOk
-    exact ⟨ok.view, by simp, by simp⟩
+    exact { h with
+      visLe := natMax_le _ _ _ h.visLe hsq
+      thrOk := thrOk_set s t _ s.counter (inflight s) s.wm h.thrOk ⟨ok.view, by simp, by simp, ok.wmView, by simp⟩
+      shape := h.shape
+      wmVis := by have := h.wmVis; simp only [natMax, setThread_wm, setThread_visible]; split <;> omega }
   · cases hstep
   · -- write: take the journal mutex
     split at hstep
     · cases hstep
     · rename_i hl
       simp only [Option.some.injEq] at hstep; subst hstep
-      have hinf : inflight s = none := by simp [inflight, hl]
-      refine ⟨h.visLe, h.batLt, h.batSorted, by intro _; rfl, ?_, ?_, ?_, h.obsOk⟩
-      · intro F hF; exact ⟨(h.floorSome F hF).1, by simp [inflight]⟩
-      · intro t' th' ht'
-        have := h.thrOk t' th' ht'
-        rw [hinf] at this
-        simpa [inflight] using this
-      · have := h.shape
-        simp only [Shape, hl] at this ⊢; exact this
+      exact inv_acquire s t _ h hl (by simp) (by simp) _
   · -- rotate: take the journal mutex
     split at hstep
     · cases hstep
     · rename_i hl
       simp only [Option.some.injEq] at hstep; subst hstep
-      have hinf : inflight s = none := by simp [inflight, hl]
-      refine ⟨h.visLe, h.batLt, h.batSorted, by intro _; rfl, ?_, ?_, ?_, h.obsOk⟩
-      · intro F hF; exact ⟨(h.floorSome F hF).1, by simp [inflight]⟩
-      · intro t' th' ht'
-        have := h.thrOk t' th' ht'
-        rw [hinf] at this
-        simpa [inflight] using this
-      · have := h.shape
-        simp only [Shape, hl] at this ⊢; exact this
+      have := inv_acquire s t .rLocked h hl (by simp) (by simp) s.log
+      exact this
+  · -- needGc: the tracker GC after a rotation
+    split at hstep
+    · cases hstep
+    · rename_i hph hload
+      simp only [Option.some.injEq] at hstep; subst hstep
+      have hload' : loading s = false := by simpa using hload
+      obtain ⟨g1, g2, _⟩ := gcWm_ok cfg hcfg s h
+      have hall := thrOk_gc cfg hcfg s h hload'
+      have ok' := hall t th hth
+      exact { h with
+        thrOk := thrOk_set s t _ s.counter (inflight s) (gcWm cfg s) hall ⟨ok'.view, by simp, by simp, ok'.wmView, by simp⟩
+        shape := h.shape
+        wmVis := g1
+        wmFloor := g2 }
+  · -- ingest: take the journal mutex
+    split at hstep
+    · cases hstep
+    · rename_i hl
+      simp only [Option.some.injEq] at hstep; subst hstep
+      exact inv_acquire s t _ h hl (by simp) (by simp) _
+  · -- gc
+    split at hstep
+    · cases hstep
+    · rename_i hload
+      simp only [Option.some.injEq] at hstep; subst hstep
+      have hload' : loading s = false := by simpa using hload
+      obtain ⟨g1, g2, _⟩ := gcWm_ok cfg hcfg s h
+      have hall := thrOk_gc cfg hcfg s h hload'
+      have ok' := hall t th hth
+      exact { h with
+        thrOk := thrOk_set s t _ s.counter (inflight s) (gcWm cfg s) hall ⟨ok'.view, ok'.loaded, ok'.drawn, ok'.wmView, ok'.wmLoaded⟩
+        shape := h.shape
+        wmVis := g1
+        wmFloor := g2 }
+  · -- close
+    simp only [Option.some.injEq] at hstep; subst hstep
+    exact { h with
+      thrOk := thrOk_set s t _ s.counter (inflight s) s.wm h.thrOk ⟨by simp, ok.loaded, ok.drawn, by simp, ok.wmLoaded⟩
+      shape := h.shape }
   · -- snap: the counter is read
     simp only [Option.some.injEq] at hstep; subst hstep
-    refine ⟨h.visLe, h.batLt, h.batSorted, h.floorNone, h.floorSome, ?_, h.shape, h.obsOk⟩
-    apply thrOk_set s t th _ s.counter (inflight s) h.thrOk
-    exact ⟨ok.view, by intro v hv; simp only [Phase.sLoaded.injEq] at hv; subst hv; exact h.visLe, by simp⟩
+    exact { h with
+      thrOk := thrOk_set s t _ s.counter (inflight s) s.wm h.thrOk
+        ⟨ok.view, by intro v hv; simp only [Phase.sLoaded.injEq] at hv; subst hv; exact h.visLe, by simp, ok.wmView,
+         by intro v hv; simp only [Phase.sLoaded.injEq] at hv; subst hv; exact h.wmVis⟩
+      shape := h.shape }
   · -- read through the view
     split at hstep
     · simp only [Option.some.injEq] at hstep; subst hstep
-      refine ⟨h.visLe, h.batLt, h.batSorted, h.floorNone, h.floorSome, ?_, h.shape, h.obsOk⟩
-      apply thrOk_set s t th _ s.counter (inflight s) h.thrOk
-      exact ⟨ok.view, ok.loaded, ok.drawn⟩
+      exact { h with
+        thrOk := thrOk_set s t _ s.counter (inflight s) s.wm h.thrOk ⟨ok.view, ok.loaded, ok.drawn, ok.wmView, ok.wmLoaded⟩
+        shape := h.shape }
     · rename_i i hview
       simp only [Option.some.injEq] at hstep; subst hstep
       obtain ⟨hi1, hi2⟩ := ok.view i hview
-      refine ⟨h.visLe, h.batLt, h.batSorted, h.floorNone, h.floorSome, ?_, h.shape, ?_⟩
-      · apply thrOk_set s t th _ s.counter (inflight s) h.thrOk
-        exact ⟨ok.view, ok.loaded, ok.drawn⟩
-      · intro o ho
-        simp only [setThread_obs, List.mem_append, List.mem_singleton] at ho
-        rcases ho with ho | rfl
-        · exact h.obsOk o ho
-        · exact ⟨hi1, read_correct s h _ _ i hi2⟩
+      exact { h with
+        thrOk := thrOk_set s t _ s.counter (inflight s) s.wm h.thrOk ⟨ok.view, ok.loaded, ok.drawn, ok.wmView, ok.wmLoaded⟩
+        shape := h.shape
+        obsOk := by
+          intro o ho
+          simp only [List.mem_append, List.mem_singleton] at ho
+          rcases ho with ho | rfl
+          · exact h.obsOk o ho
+          · exact ⟨hi1, read_correct s h _ _ i hi2⟩ }
   · -- readTop
     simp only [Option.some.injEq] at hstep; subst hstep
-    refine ⟨h.visLe, h.batLt, h.batSorted, h.floorNone, h.floorSome, ?_, h.shape, h.obsOk⟩
-    apply thrOk_set s t th _ s.counter (inflight s) h.thrOk
-    exact ⟨ok.view, ok.loaded, ok.drawn⟩
+    exact { h with
+      thrOk := thrOk_set s t _ s.counter (inflight s) s.wm h.thrOk ⟨ok.view, ok.loaded, ok.drawn, ok.wmView, ok.wmLoaded⟩
+      shape := h.shape }
   · -- register: draw a seqno
     simp only [Option.some.injEq] at hstep; subst hstep
-    refine ⟨Nat.le_succ_of_le h.visLe, fun b hb => Nat.lt_succ_of_lt (h.batLt b hb), h.batSorted, h.floorNone, ?_, ?_, h.shape, ?_⟩
-    · intro F hF; exact ⟨Nat.le_succ_of_le (h.floorSome F hF).1, (h.floorSome F hF).2⟩
-    · apply thrOk_set s t th _ (s.counter + 1) (inflight s)
-      · intro t' x hx; exact threadOk_mono _ _ _ _ (Nat.le_succ _) (h.thrOk t' x hx)
-      · exact ⟨fun i hi => ⟨Nat.le_succ_of_le (ok.view i hi).1, (ok.view i hi).2⟩, by simp,
-          by intro sq hsq; simp only [Phase.gDrawn.injEq] at hsq; subst hsq; exact Nat.lt_succ_self _⟩
-    · intro o ho; exact ⟨Nat.le_succ_of_le (h.obsOk o ho).1, (h.obsOk o ho).2⟩
+    exact { h with
+      visLe := Nat.le_succ_of_le h.visLe
+      batLt := fun b hb => Nat.lt_succ_of_lt (h.batLt b hb)
+      floorSome := by intro F hF; exact ⟨Nat.le_succ_of_le (h.floorSome F hF).1, (h.floorSome F hF).2⟩
+      thrOk := by
+        apply thrOk_set s t _ (s.counter + 1) (inflight s) s.wm
+        · intro t' x hx; exact threadOk_mono _ _ _ _ _ (Nat.le_succ _) (h.thrOk t' x hx)
+        · exact ⟨fun i hi => ⟨Nat.le_succ_of_le (ok.view i hi).1, (ok.view i hi).2⟩, by simp,
+            by intro sq hsq; simp only [Phase.gDrawn.injEq] at hsq; subst hsq; exact Nat.lt_succ_self _, ok.wmView, by simp⟩
+      shape := h.shape
+      obsOk := by intro o ho; exact ⟨Nat.le_succ_of_le (h.obsOk o ho).1, (h.obsOk o ho).2⟩ }
 
 theorem step_inv (cfg : Cfg) (hcfg : cfg.useFloor = true) (s : State) (t : Tid) (h : Inv s) :
     Inv (step cfg s t) := by
@@ -396,8 +626,7 @@ theorem step_inv (cfg : Cfg) (hcfg : cfg.useFloor = true) (s : State) (t : Tid) 
         split at hs
         · rename_i heq
           subst heq
-          simp only [Option.some.injEq] at hs; subst hs
-          exact inv_locked s _ th ph hth hl h
+          exact inv_locked cfg hcfg s s' _ th ph hth hl hs h
         · exact inv_free cfg hcfg s s' t th hth hs h
       · exact inv_free cfg hcfg s s' t th hth hs h
 
